@@ -11,7 +11,7 @@ from harness.common import splines as S, leandriver, bits, registry as R
 PROPERTY = 'C17'
 LEVEL = 'proof'
 REQUIRED_THEOREMS = ['Properties.C17.exp_inverse_rejects_iff', 'Properties.C17.tanh_inverse_rejects_iff', 'Properties.C17.sigmoid_inverse_rejects_iff',
-                     'Properties.C17.rq_rejects_outside', 'Properties.C17.in_domain_index_in_range', 'Properties.C17.tails_accept_outside', 'Properties.C17.cubic_rejects_outside', 'Properties.C17.rq_forward_in_domain_total', 'Properties.C17.rq_forward_returns_bin', 'Properties.C17.rq_inverse_in_domain_total']
+                     'Properties.C17.rq_rejects_outside', 'Properties.C17.in_domain_index_in_range', 'Properties.C17.tails_accept_outside', 'Properties.C17.cubic_rejects_outside', 'Properties.C17.rq_forward_in_domain_total', 'Properties.C17.rq_forward_returns_bin', 'Properties.C17.rq_inverse_in_domain_total', 'Properties.C17.cubic_forward_in_domain_total', 'Properties.C17.quad_forward_in_domain_total', 'Properties.C17.quad_tails_one_bin_counterexample']
 RULE = ("atoms: boundary value b, nextafter(b, inside), nextafter(b, outside), interior, far outside; placed at every batch position among in-domain "
         "fillers; transforms: Exp/Tanh/Sigmoid/Logit/CauchyCDF inverses, bounded and unconstrained splines of the four families in both directions; boxes "
         "and tail bounds 1e-2..1e4; both precisions; distinct = (transform, direction, precision, bound, atom kind, position); non-trivial = all of them "
@@ -153,6 +153,28 @@ def search(ctx):
                 ctx.fail('in-domain input failed (%s / non-finite)' % k, case, match={'fn': fam, 'symptom': 'in-domain-fails', 'prec': prec, 'tails': tails})
         if len(ctx.failing) > 10:
             break
+    degenerate_configs(ctx)
+
+
+def degenerate_configs(ctx):
+    """configurations the constructors accept: every one must evaluate in-domain inputs (F27: quadratic, linear tails, one bin)"""
+    import nflows.transforms as T
+    for name, build, K in [('quad', lambda K: T.PiecewiseQuadraticCDF(shape=[2], num_bins=K, tails='linear', tail_bound=1.0), 1),
+                           ('quad', lambda K: T.PiecewiseQuadraticCDF(shape=[2], num_bins=K, tails='linear', tail_bound=1.0), 2),
+                           ('rq', lambda K: T.PiecewiseRationalQuadraticCDF(shape=[2], num_bins=K, tails='linear', tail_bound=1.0), 1),
+                           ('cubic', lambda K: T.PiecewiseCubicCDF(shape=[2], num_bins=K, tails='linear', tail_bound=1.0), 1),
+                           ('lin', lambda K: T.PiecewiseLinearCDF(shape=[2], num_bins=K, tails='linear', tail_bound=1.0), 1),
+                           ('quad', lambda K: T.PiecewiseQuadraticCDF(shape=[2], num_bins=K), 1)]:
+        try:
+            t = build(K)
+        except Exception:
+            continue      # rejected at construction: fine
+        for inverse in (False, True):
+            k, y, ld = R.impl_call(t, torch.tensor([[0.0, 0.5], [-0.25, 1.0]]) if t.tails else torch.tensor([[0.0, 0.5], [0.25, 1.0]]), None, inverse)
+            ctx.case(key=('degenerate', name, K, bool(t.tails), inverse), branch='degenerate/%s' % name, nontrivial=True)
+            if k != 'ok' or not torch.isfinite(y).all() or not torch.isfinite(ld).all():
+                ctx.fail('accepted configuration fails on in-domain inputs (%s)' % k, {'fn': name, 'K': K, 'tails': bool(t.tails), 'inverse': inverse},
+                         match={'fn': name, 'tails': bool(t.tails), 'K': K, 'symptom': 'raises-' + k if k != 'ok' else 'non-finite'})
 
 
 def replay_finding(ctx, f):
